@@ -31,6 +31,8 @@ def schema_diff(exp: Dict[str, Any], got: Dict[str, Any]) -> List[str]:
     for f in ("strict", "coerce", "ordered", "name", "amc"):
         if exp[f] != got[f]:
             out.append("%s is %r, should be %r" % (f, got[f], exp[f]))
+    if exp.get("mi") and got.get("mi") and exp["mi"] != got["mi"]:
+        out.append("MultiIndex options are %r, should be %r" % (got["mi"], exp["mi"]))
     if [_nchk(c) for c in exp["checks"]] != [_nchk(c) for c in got["checks"]]:
         out.append("frame checks %s, should be %s" % ([_nchk(c) for c in got["checks"]], [_nchk(c) for c in exp["checks"]]))
     for part in ("cols", "index"):
